@@ -19,6 +19,7 @@ import (
 	"errors"
 	"fmt"
 	"os"
+	"os/exec"
 	"path/filepath"
 	"strings"
 	"sync"
@@ -303,6 +304,7 @@ func main() {
 
 	largeEntries(r)
 	expiredUnderContention(r)
+	failedStoreKeepsPrevious(r)
 	r.RequireAtLeast("get-expect-hit", 1000)
 	r.RequireAtLeast("get-expect-miss-expired", 1000)
 	r.RequireAtLeast("get-expect-miss-never-stored", 1000)
@@ -532,4 +534,51 @@ func expiredUnderContention(r *lib.Run) {
 		}
 		r.Event("set-overlapping-expired-reads")
 	}, r.PanicViolation("expired entry under contention"))
+}
+
+// failedStoreKeepsPrevious: "last stored" means last SUCCESSFULLY stored. A store that fails part-way (here: a writer
+// process whose file-size limit makes write(2) fail with EFBIG after a partial write) must leave the bundle stored
+// before it in place, byte for byte.
+func failedStoreKeepsPrevious(r *lib.Run) {
+	worker := filepath.Join(os.Getenv("VERIF_BIN"), "worker")
+	if _, err := os.Stat(worker); err != nil {
+		r.Event("worker-missing")
+		return
+	}
+	ctx := context.Background()
+	far := time.Now().Add(10 * 365 * 24 * time.Hour)
+	bdir := lib.TempDir("c15fb")
+	r.OnExit(func() { os.RemoveAll(bdir) })
+	n := r.N(6, 60)
+	for k := 0; k < n; k++ {
+		base := lib.TempDir("c15fs")
+		c, err := crl.NewFileCache(base)
+		if err != nil {
+			panic(err)
+		}
+		u := fmt.Sprintf("http://failed-store.example/%d.crl", k)
+		first := &corecrl.Bundle{BaseCRL: lib.MintCRL(int64(920000+2*k), far, 2000+k*300)}
+		second := lib.MintCRL(int64(920001+2*k), far, 40000)
+		os.WriteFile(filepath.Join(bdir, fmt.Sprintf("%d.der", 920001+2*k)), second.Raw, 0o644)
+		if err := c.Set(ctx, u, first); err != nil {
+			panic(err)
+		}
+		cmd := exec.Command(worker, "cache-set", base, u, bdir, fmt.Sprint(920001+2*k))
+		cmd.Env = append(os.Environ(), fmt.Sprintf("VERIF_FSIZE_LIMIT=%d", 16+k*997))
+		out, werr := cmd.CombinedOutput()
+		r.Eval(fmt.Sprintf("failed-store/%d", k))
+		got, gerr := c.Get(ctx, u)
+		switch {
+		case werr == nil:
+			r.Event("limited-store-succeeded") // the limit did not bite: says nothing
+		case !strings.Contains(string(out), "set failed"):
+			r.Event("limited-store-failed-outside-set")
+		case gerr != nil || got == nil || !bytes.Equal(got.BaseCRL.Raw, first.BaseCRL.Raw):
+			r.Violation(map[string]string{"kind": "failed-store-lost-previous"}, fmt.Sprintf("a store that failed (%s) cost the bundle stored before it: Get now returns err=%v", strings.TrimSpace(string(out)), gerr), nil)
+		default:
+			r.Event("failed-stores-kept-previous")
+		}
+		os.RemoveAll(base)
+	}
+	r.RequireAtLeast("failed-stores-kept-previous", 3)
 }
